@@ -334,6 +334,16 @@ Proof.
   - intros y' Hy'. apply in_map_iff in Hy'. destruct Hy' as [y [<- Hy]]. simpl. apply NoDup_filter_nat. auto.
 Qed.
 
+Lemma wf_clear_all s : wf s -> wf (c_clear_all s).
+Proof.
+  intros [H1 [H2 [H3 [H4 H5]]]]. split; [|split; [|split; [|split]]]; simpl.
+  - intros y' Hy' m. apply in_map_iff in Hy'. destruct Hy' as [y [<- Hy]]. simpl. split; [contradiction|discriminate].
+  - intros y' e Hy' He. apply in_map_iff in Hy'. destruct Hy' as [y [<- Hy]]. destruct He.
+  - constructor.
+  - rewrite map_lname_map; auto.
+  - intros y' Hy'. apply in_map_iff in Hy'. destruct Hy' as [y [<- Hy]]. constructor.
+Qed.
+
 (* ------------------------------------------------------------------ wf over histories *)
 Lemma wf_init cls : Forall wf (init cls).
 Proof.
@@ -362,6 +372,7 @@ Proof.
   - intros l k s H; wf3 H; [apply sync_add_layer|apply closed_add_layer|apply nodup_add_layer]; auto.
   - intros l s H; wf3 H; [apply sync_del_layer|apply closed_del_layer|apply nodup_del_layer]; auto.
   - intros a s H; wf3 H; [apply sync_set_gattr|apply closed_set_gattr|apply nodup_set_gattr]; auto.
+  - intros s H. apply wf_clear_all. exact H.
   - intros ns s H; wf3 H; [apply sync_restrict|apply closed_restrict|apply nodup_restrict]; auto.
   - apply wf_init.
 Qed.
